@@ -69,11 +69,49 @@ def prebuild(data, specs):
         holder[sp["path"][-1]] = find_class(sp["cid"])(allow_custom=True, **{k: v for k, v in sub.items() if k != "type"})
 
 
+LATE = {}
+
+
+def register_late(case):
+    """An observable type that is looked up before it is registered: its data is parsed (parse_observable, and as a
+    member of a 2.0 observed-data container) while the type is unknown, then CustomObservable registers it, and only
+    then is the case run.  The outcome must be that of a type registered up front (the `control` of the case)."""
+    late = case["late"]
+    key = (late["type"], late["ver"])
+    if key in LATE:
+        return
+    P = stix2.properties
+    probe = dict(late["probe"])
+    for allow in (True, False):
+        try:
+            stix2.parse_observable(dict(probe), allow_custom=allow, version=late["ver"])
+        except Exception:  # noqa: BLE001
+            pass
+        try:
+            stix2.parse(dict(probe), allow_custom=allow)
+        except Exception:  # noqa: BLE001
+            pass
+        if late["ver"] == "2.0":
+            try:
+                stix2.v20.ObservedData(first_observed="2016-01-01T00:00:00Z", last_observed="2016-01-01T00:00:00Z", number_observed=1,
+                                       objects={"0": dict(probe)}, allow_custom=allow)
+            except Exception:  # noqa: BLE001
+                pass
+    mod = stix2.v20 if late["ver"] == "2.0" else stix2.v21
+    holder = type("LateObs", (object,), {})
+    if late["ver"] == "2.1":
+        LATE[key] = mod.CustomObservable(late["type"], [("value", P.StringProperty(required=True))], ["value"])(holder)
+    else:
+        LATE[key] = mod.CustomObservable(late["type"], [("value", P.StringProperty(required=True))])(holder)
+
+
 def make(case, allow):
     import copy
     data = copy.deepcopy(case["data"])
     if case["route"] == "parse":
         return stix2.parse(data, allow_custom=allow)
+    if case["route"] == "parse_observable":
+        return stix2.parse_observable(data, allow_custom=allow, version=case["cid"][:3])
     if case.get("prebuilt"):
         prebuild(data, case["prebuilt"])
     return find_class(case["cid"])(allow_custom=allow, **data)
@@ -88,7 +126,22 @@ def attempt(f):
         return False, None, type(e).__name__ + ": " + str(e)[:160]
 
 
+def signature(o):
+    return [o.get("strict_ok"), (o.get("strict_err") or "").split(":")[0], o.get("allow_ok"), o.get("allow_is_obj"), o.get("hc"),
+            o.get("reparse_ok")]
+
+
 def observe(case):
+    if case.get("late"):
+        try:
+            register_late(case)
+        except Exception as e:  # noqa: BLE001
+            return {"strict_ok": False, "strict_err": "late registration: " + type(e).__name__, "allow_ok": False, "allow_err": "late registration"}
+        out = observe(dict(case, late=None))
+        ctl = observe(case["control"])
+        out["control_signature"] = signature(ctl)
+        out["signature"] = signature(out)
+        return out
     out = {}
     if REGISTRATION_ERROR:
         out["registration_error"] = REGISTRATION_ERROR
@@ -127,6 +180,10 @@ def observe(case):
 
 def judge(case, o):
     fails = []
+    if case.get("late") and "signature" in o and o["signature"] != o["control_signature"]:
+        fails.append({"kind": "registration-time-changes-outcome",
+                      "detail": {"site": case.get("site"), "late_registered": o["signature"], "registered_up_front": o["control_signature"],
+                                 "order": "strict_ok, strict error, allow_ok, allow gives object, has_custom, strict reparse ok"}})
     if case.get("custom") and o["strict_ok"]:
         fails.append({"kind": "custom-content-admitted-with-customization-disallowed",
                       "detail": {"site": case.get("site"), "has_custom": o.get("strict_hc"), "is_object": o.get("strict_is_obj")}})
